@@ -208,7 +208,11 @@ class Classifier:
         for s in sub:
             if isinstance(s, ast.BinOp) and isinstance(s.op, ast.Add):
                 l, r, res = self.iv(s.left), self.iv(s.right), self.unannot(self.iv(s))
-                if self.is_tupleish(l) and self.is_tupleish(r) and isinstance(res, self.V.GenericValue) and not isinstance(res, self.V.SequenceValue) and res.typ is tuple:
+                members = list(res.vals) if isinstance(res, self.V.MultiValuedValue) else [res]
+                members = [self.unannot(m) for m in members]
+                # the mechanism: overload 1 of tuple.__add__ answers tuple[T_arg, ...] (a GenericValue, not a
+                # SequenceValue) for at least one member of the (possibly union-valued) receiver
+                if self.is_tupleish(l) and self.is_tupleish(r) and any(isinstance(m, self.V.GenericValue) and not isinstance(m, self.V.SequenceValue) and m.typ is tuple for m in members):
                     return "C01-tuple-add-drops-receiver"
         # --- #7: type_always_true for a class whose subclass defines __bool__/__len__
         from pyanalyze.boolability import Boolability, get_boolability
